@@ -24,6 +24,8 @@ SPECFUNCS = {
                             'pri(c).create_ts.dtntime == old(pri(c).create_ts.dtntime) and '
                             'pri(c).create_ts.seqno == old(pri(c).create_ts.seqno) and pri(c).lifetime == old(pri(c).lifetime)'),
     'received': (['c'], 'contains(c.actions, "receive")'),
+    'clock_kept': ([], 'ghost.clock_reads == old(ghost.clock_reads) and ghost.clock_last == old(ghost.clock_last)'),
+    'is_age': (['c', 'b'], 'contains(blocks(c), b) and b._pcls == tag_of("BundleAgeBlock")'),
     # a decoded Hop Count block: numbers present, cached block data (if any) is the encoding of the payload
     'hop_ok': (['b'], 'hop_of(b).count is not None and hop_of(b).limit is not None and unwrap(hop_of(b).count) >= 0 and '
                       '(b.btsd is None or unwrap(b.btsd) == enc_hop(hop_of(b).limit, hop_of(b).count))'),
@@ -138,12 +140,13 @@ FUNCS = {
         requires=[('wire', WIRE_PRIMARY, [])],
         modifies=['pkt:PrimaryBlock.source', 'pkt:PrimaryBlock.report_to', 'pkt:PrimaryBlock.create_ts',
                   'pkt:PrimaryBlock.lifetime', 'pkt:Timestamp.dtntime', 'pkt:Timestamp.seqno', 'Timestamper._time',
-                  'Timestamper._seqno', 'ghost.crc_ok'],
+                  'Timestamper._seqno', 'ghost.crc_ok', 'ghost.clock_reads', 'ghost.clock_last'],
         # (ghost: whatever this function did, the CRC fields are considered stale afterwards)
         ghost_exit=['ghost.crc_ok = set_remove(ghost.crc_ok, ctr.bundle)'],
         ensures=[
             # C11: a bundle received from another node leaves with its primary block as it came
             ('received_bundle_primary_untouched', 'implies(received(ctr), primary_kept(ctr))', ['C11']),
+            ('no_clock_reading_for_a_received_bundle', 'implies(received(ctr), clock_kept())', ['C11']),
             # C05: a fragment keeps the identity (creation time, also a zero one, and sequence number) it was given
             ('fragment_primary_untouched',
              'implies(flag(old(unwrap(ctr.bundle.primary).bundle_flags), F_IS_FRAGMENT), primary_kept(ctr))', ['C05', 'C11']),
@@ -153,8 +156,16 @@ FUNCS = {
     'bp.agent:Timestamper.__call__': dict(
         self='Ref[Timestamper]', returns='Pkt[Timestamp]', props=['C11'],
         trusted=True, trusted_reason='reads the system clock (datetime.now); only the shape of the result is assumed',
-        modifies=['Timestamper._time', 'Timestamper._seqno'],
-        ensures=[('fresh_timestamp', 'not existed(result) and result.dtntime >= 0 and result.seqno >= 0')],
+        modifies=['Timestamper._time', 'Timestamper._seqno', 'ghost.clock_reads', 'ghost.clock_last'],
+        ensures=[('fresh_timestamp', 'not existed(result) and result.dtntime >= 0 and result.seqno >= 0'),
+                 ('is_a_clock_reading', 'ghost.clock_reads == old(ghost.clock_reads) + 1 and result.dtntime == ghost.clock_last')],
+    ),
+    # date arithmetic is outside the modelled subset: the DTN time of a date is an arbitrary number (so a date that was
+    # remembered earlier is not known to be a reading of the clock made now)
+    'bp.encoding.fields:DtnTimeField.datetime_to_dtntime': dict(
+        params={'val': 'Opt[Any[datetime]]'}, returns='Int', props=['C11'],
+        trusted=True, trusted_reason='datetime subtraction and division (not modelled); the result is an arbitrary number',
+        modifies=[], ensures=[],
     ),
     # ---- bundle container / bundle operations used on the transmit path: assumed contracts -------------------
     'bp.util:BundleContainer.block_type': dict(
@@ -223,6 +234,7 @@ FUNCS = {
                                      'code and data of a block carrying an AdminRecord) is assumed not to change a bundle '
                                      'that was decoded from the wire, where flag and record already agree',
         modifies=['pkt:CanonicalBlock.btsd', 'pkt:CanonicalBlock.crc_value', 'pkt:PrimaryBlock.crc_value',
+                  'pkt:PrimaryBlock._rx_items', 'pkt:CanonicalBlock._rx_items',
                   'pkt:PrimaryBlock.bundle_flags', 'pkt:CanonicalBlock.type_code', 'ghost.crc_ok'],
         ghost_exit=['ghost.crc_ok = set_remove(ghost.crc_ok, self)'],
         ensures=[('hop_wire_kept', 'wire_kept()'),
@@ -256,10 +268,11 @@ FUNCS = {
         modifies=['Ctr.route', 'Ctr.sender', 'Ctr._block_num', 'Ctr._last_block_num',
                   'pkt:CanonicalBlock.btsd', 'pkt:CanonicalBlock.crc_value', 'pkt:CanonicalBlock.block_num',
                   'pkt:PrimaryBlock.bundle_flags', 'pkt:CanonicalBlock.type_code',
-                  'pkt:PrimaryBlock.crc_value', 'pkt:PrimaryBlock.source', 'pkt:PrimaryBlock.report_to',
+                  'pkt:PrimaryBlock.crc_value', 'pkt:PrimaryBlock._rx_items', 'pkt:CanonicalBlock._rx_items',
+                  'pkt:PrimaryBlock.source', 'pkt:PrimaryBlock.report_to',
                   'pkt:PrimaryBlock.create_ts', 'pkt:PrimaryBlock.lifetime', 'pkt:Timestamp.dtntime', 'pkt:Timestamp.seqno',
                   'Timestamper._time', 'Timestamper._seqno', 'ghost.crc_ok', 'ghost.wire_crc_ok', 'ghost.tx_out',
-                  'ghost.consumed', 'ghost.sched_send', 'ghost.step_failed'],
+                  'ghost.consumed', 'ghost.sched_send', 'ghost.step_failed', 'ghost.clock_reads', 'ghost.clock_last'],
         ghost_exit=['ghost.tx_out = ite(ctr.sender is None, ghost.tx_out, ghost.tx_out + [ctr])'],
         locals={'interrupted': 'Bool'},
         loops={0: dict(invariant=[
@@ -270,6 +283,7 @@ FUNCS = {
             ('crc_types_known', 'crc_types_known(ctr.bundle)'),
             ('still_as_decoded', 'implies(old(received(ctr)), admin_coherent(ctr.bundle))'),
             ('received_primary_kept', 'implies(old(received(ctr)), primary_kept(ctr))'),
+            ('clock_kept', 'implies(old(received(ctr)), clock_kept())'),
             ('nothing_sent_yet', 'ghost.tx_out == old(ghost.tx_out) and ghost.wire_crc_ok == old(ghost.wire_crc_ok)'),
             ('hop_wire_kept', 'wire_kept()'),
         ])},
@@ -285,6 +299,7 @@ FUNCS = {
             ('encoded_with_current_crcs', 'implies(old(ghost.wire_crc_ok), ghost.wire_crc_ok)', ['C08', 'C11']),
             # C11: a received bundle leaves with its primary block unchanged ...
             ('received_primary_kept', 'implies(old(received(ctr)), primary_kept(ctr))', ['C11']),
+            ('no_clock_reading_for_a_received_bundle', 'implies(old(received(ctr)), clock_kept())', ['C11']),
             # ... and what its Hop Count blocks contribute to the wire is what it was on entry
             ('hop_wire_kept', 'wire_kept()', ['C11']),
         ],
@@ -337,10 +352,11 @@ FUNCS = {
                   'pkt:BundleAgeBlock.payload', 'ghost.finished',
                   'Ctr.actions', 'Ctr.status_reason', 'Ctr.route', 'Ctr.sender', 'Ctr._block_num', 'Ctr._last_block_num',
                   'pkt:CanonicalBlock.crc_value', 'pkt:CanonicalBlock.block_num',
-                  'pkt:PrimaryBlock.crc_value', 'pkt:PrimaryBlock.source', 'pkt:PrimaryBlock.report_to',
+                  'pkt:PrimaryBlock.crc_value', 'pkt:PrimaryBlock._rx_items', 'pkt:CanonicalBlock._rx_items',
+                  'pkt:PrimaryBlock.source', 'pkt:PrimaryBlock.report_to',
                   'pkt:PrimaryBlock.create_ts', 'pkt:PrimaryBlock.lifetime', 'pkt:Timestamp.dtntime', 'pkt:Timestamp.seqno',
                   'Timestamper._time', 'Timestamper._seqno', 'ghost.crc_ok', 'ghost.wire_crc_ok', 'ghost.tx_out',
-                  'ghost.consumed', 'ghost.sched_send', 'ghost.step_failed'],
+                  'ghost.consumed', 'ghost.sched_send', 'ghost.step_failed', 'ghost.clock_reads', 'ghost.clock_last'],
         locals={'ctr': 'Ref[Ctr]'},
         loops={
             0: dict(invariant=[  # Previous Node blocks: remove every one
@@ -424,6 +440,25 @@ FUNCS = {
              'forall(b, "Pkt[CanonicalBlock]", implies(contains(blocks(old(self._fwd_queue)[0]), b) and '
              'b._pcls == tag_of("PreviousNodeBlock"), not existed(b) and eqv(prev_of(b).node, self._config.node_id))))', ['C11']),
             ('crcs_current_when_encoded', 'implies(old(ghost.wire_crc_ok), ghost.wire_crc_ok)', ['C11', 'C08']),
+            # C11: at most one Bundle Age block, made here, whose age is the time since creation as the node's clock shows it
+            # while the bundle is being forwarded (a reading made in this call, not one remembered from earlier)
+            ('at_most_one_age_block',
+             'implies(length(old(self._fwd_queue)) > 0 and contains(old(self._fwd_queue)[0].actions, "forward"), '
+             'forall(b, "Pkt[CanonicalBlock]", forall(c, "Pkt[CanonicalBlock]", implies(is_age(old(self._fwd_queue)[0], b) and '
+             'is_age(old(self._fwd_queue)[0], c), b == c))))', ['C11']),
+            ('age_block_made_here_from_a_clock_reading_of_this_call',
+             'implies(length(old(self._fwd_queue)) > 0 and contains(old(self._fwd_queue)[0].actions, "forward"), '
+             'forall(b, "Pkt[CanonicalBlock]", implies(is_age(old(self._fwd_queue)[0], b), not existed(b) and '
+             'ghost.clock_reads > old(ghost.clock_reads) and '
+             'eqv(age_of(b).age, ghost.clock_last - pri(old(self._fwd_queue)[0]).create_ts.dtntime))))', ['C11']),
+            ('age_block_present_when_creation_time_known',
+             'implies(length(old(self._fwd_queue)) > 0 and contains(old(self._fwd_queue)[0].actions, "forward") and '
+             'pri(old(self._fwd_queue)[0]).create_ts.dtntime != 0, '
+             'exists(b, "Pkt[CanonicalBlock]", is_age(old(self._fwd_queue)[0], b)))', ['C11']),
+            ('no_age_block_for_a_clockless_source',
+             'implies(length(old(self._fwd_queue)) > 0 and contains(old(self._fwd_queue)[0].actions, "forward") and '
+             'pri(old(self._fwd_queue)[0]).create_ts.dtntime == 0, '
+             'forall(b, "Pkt[CanonicalBlock]", not is_age(old(self._fwd_queue)[0], b)))', ['C11']),
         ],
     ),
 }
